@@ -40,7 +40,7 @@ func withSpare(v interface{}) interface{} {
 }
 
 const c06DocText = `{"an":[3,1,2,1],"as":["b","a","c"],"ao":[{"n":2,"s":"b","an":[2,1],"o":{"n":5}},{"n":1,"s":"a","an":[4,3],"o":{"n":4}},{"n":3,"s":"c","an":[],"o":{"n":6}},{"n":1,"s":"d","an":[1],"o":{"n":4}}],
-"aa":[[2,1],[4,3],[]],"am":[1,"a",null,[2]],"o":{"n":1,"s":"x","an":[9,8],"as":["q","p"],"o":{"n":2},"ao":[{"n":2},{"n":1}]},"o2":{"s":"y","z":null,"n":7},"s":"héllo","t":"lo","n":-1.5,"m":2,"b":true,"z":null,
+"aa":[[2,1],[4,3],[]],"am":[1,"a",null,[2]],"o":{"n":1,"s":"x","an":[9,8],"as":["q","p"],"o":{"n":2},"ao":[{"n":2},{"n":1}]},"o2":{"s":"y","z":null,"n":7},"s":"héllo","t":"the quick brown fox jumps over the lazy dog 0123456789","n":-1.5,"m":2,"b":true,"z":null,
 "mixed":[{"k":2,"i":0},{"k":1,"i":1},{"k":"x","i":2},{"k":3,"i":3}],
 "nz":-0.0,"anz":[1,-0.0,2],"oz":{"n":-0.0,"an":[-0.0]},"sorted":[{"n":1,"s":"a"},{"n":2,"s":"b"},{"n":3,"s":"c"}]}`
 
